@@ -207,6 +207,8 @@ class ServeModel(object):
             return z3.ULT(S.v["iters%d" % t], self.bg_iters)
         if p == "data":
             return S.v["data%d" % t] != 0
+        if p == "wait_for_lock":
+            return z3.BoolVal(True)               # every caller in the model passes the default
         if isinstance(e, ast.Call):
             cp = path(e.func)
             if cp == "self._ttl.expired":
@@ -305,18 +307,32 @@ class ServeModel(object):
                     Wk.set("ret%d" % t, bool(v.value) if v is not None else False)
                 self.goto(Wk, S, t, nxt)
                 return T
-            # return wait_for_lock and self._recv_event.wait(timeout.timeleft())
-            if isinstance(v, ast.BoolOp) and isinstance(v.op, ast.And) and isinstance(v.values[-1], ast.Call) and \
+            # return [<pure conditions> and] self._recv_event.wait(timeout.timeleft())
+            wcall, pre = None, []
+            if isinstance(v, ast.Call) and path(v.func) == "self._recv_event.wait":
+                wcall = v
+            elif isinstance(v, ast.BoolOp) and isinstance(v.op, ast.And) and isinstance(v.values[-1], ast.Call) and \
                     path(v.values[-1].func) == "self._recv_event.wait":
+                wcall, pre = v.values[-1], v.values[:-1]
+            if wcall is not None:
+                pcs = [self.cond(x, S, t, fn) for x in pre]
+                if any(x is None for x in pcs):
+                    raise Unsupported("engine B: return expression with effects at line %d" % node.lineno)
+                pre_c = z3.And(*pcs) if pcs else z3.BoolVal(True)
                 nb = z3.BoolVal(self.bg_nonblocking and self.is_bg(t))
                 waiting = S.v["waiting%d" % t]
-                # phase 1: enter the wait (release the condition's lock)
-                g1 = z3.And(z3.Not(waiting), z3.Not(nb))
+                # the leading conditions are false: returns False without waiting
+                gf = z3.And(z3.Not(waiting), z3.Not(pre_c))
+                Wk.set("ret%d" % t, False, gf)
+                self.goto(Wk, S, t, nxt, gf)
+                # phase 1: enter the wait (release the condition's lock); waiting without holding it is an error
+                g1 = z3.And(z3.Not(waiting), z3.Not(nb), pre_c)
+                Wk.set("err", True, z3.And(g1, z3.Not(S.v["cvlock"])))
                 Wk.set("cvlock", False, g1)
                 Wk.set("waiting%d" % t, True, g1)
                 Wk.set("notified%d" % t, False, g1)
                 # non-blocking (zero timeout): returns False at once
-                g0 = z3.And(z3.Not(waiting), nb)
+                g0 = z3.And(z3.Not(waiting), nb, pre_c)
                 Wk.set("ret%d" % t, False, g0)
                 self.goto(Wk, S, t, nxt, g0)
                 # phase 2: woken by a notification, re-acquire the condition's lock and return True
@@ -516,6 +532,10 @@ class ServeModel(object):
 
     def lost_wakeup(self, S):
         """C13: a reply is in the inbox, nobody is receiving and every client is asleep in Condition.wait"""
+        if self.with_bg:
+            # the real background thread never stops and never sleeps on the condition (zero timeout): it will receive
+            # the reply and notify; "the bounded background thread has finished" would be an artefact of the bound
+            return z3.BoolVal(False)
         nobody = z3.And(*[z3.Or(self.blocked_in_wait(S, t), S.v["depth%d" % t] == 0) for t in range(self.T)])
         return z3.And(S.v["inlen"] != 0, nobody, z3.Not(S.v["recvlock"]))
 
